@@ -14,7 +14,7 @@ TECHNIQUE = ("Coq: NextPackage as the SET of its possible results (theorems over
              "interleaving system of reader goroutine, closing goroutine, peer answer and logout timeout with Go's RWMutex (pending writer blocks readers) and bounded queues: "
              "lock discipline as an invariant of EVERY step, progress + a strictly decreasing measure => Close returns in every schedule under explicit hypotheses; the "
              "cases the full statement fails on are refuted by stuck-state witnesses (vm_compute) and listed as known findings; a second system of n closers of ONE channel "
-             "(counting invariant over every schedule: exactly one performs the teardown); "
+             "(counting invariant over every schedule: exactly one performs the teardown); a third system sender (two read-lock sections) / closer (C13/SendClose.v: invariant + progress + measure over every schedule); "
              "+ scripted schedules on the real Conn/Channel with watchdogs, the model predicting every observation")
 RULE = ("cap = ChannelPackageQueueSize = 4 (also 1; thorough: 1, 2, 8 in the fill-level families); kind = channel 0 / a logical channel (real setup handshake); cancellation modes: own ctx, Conn's ctx, parent of the Conn's ctx, expired deadline. "
         "fn 1: 0..cap+3 packages fed (reader parked on the full queue above cap), context cancelled BEFORE the calls, nfed+2 NextPackage(wait) calls, each in a settled state: 104 cases. "
@@ -34,9 +34,15 @@ RULE = ("cap = ChannelPackageQueueSize = 4 (also 1; thorough: 1, 2, 8 in the fil
         "NextPackage on logical channel 1, Close / Conn.Close has sent the teardown and waits for the write lock, the packet arrives and the reader (channel still registered) queues in WritePacket's RLock behind the pending writer "
         "(both parked states seen in the goroutine dump), the consumer's context is cancelled: 20 cases. fn 10 concurrent closers (as C12 fn 5): 2..3 goroutines in Channel.Close of one logical channel, Conn.Close among them, the "
         "transport holds the teardown packets until every closer is parked in the write or has returned: 24 cases, GOMAXPROCS 1/4. "
+        "fn 13 close-during-send: SendPackage of a message of 1/2/3 packets (packet size 64 and 512) on a logical channel, the transport holds back the k-th Write of the message "
+        "(k = 1..packets, i.e. the sender is inside QueuePackage's or SendRemainingPackets' read-lock section), then Channel.Close or Conn.Close (channel 0 open as well, its logout answered "
+        "at once / after 300 ms / thorough: never) is started from another goroutine; the Write is released once Close is seen parked in Lock() (goroutine dump; variant: the peer's "
+        "acknowledgement of the teardown arrives meanwhile and the reader queues behind the pending writer) or immediately (the observed order is part of the input): 90 cases; output: "
+        "Close returned + code, SendPackage returned + code, packets of the message written, NextPackage / SendPackage / Close afterwards, unregistered, transport closed, Conn.Close returned, "
+        "reader ended; bound 2.5 s per call, a scenario cut by its own watchdog is the observable (-2). "
         "Watchdogs: a call that must return gets 4 s, the known blocking scenarios are observed for 3 s; only booleans reach the case file. Distinct by (fn, input).")
 TRUSTED = ["Coq 8.16.1 kernel + vm_compute (no native_compute)",
-           "hand-written models coq/theories/C13/Model.v + C13/Closers.v of NextPackage / NextPackageUntil / sendPackets / WritePacket / Close / Conn.Close / Conn.ReadFrom (tied by this correspondence: "
+           "hand-written models coq/theories/C13/Model.v + C13/Closers.v + C13/SendClose.v of SendPackage's two lock sections /  NextPackage / NextPackageUntil / sendPackets / WritePacket / Close / Conn.Close / Conn.ReadFrom (tied by this correspondence: "
            "every scenario's observations are predicted by the model)",
            "harness/cmd/c12 (in-memory transport with held writes and scripted failures, peer answering setup and logout, settle detection by byte accounting, watchdogs), "
            "tds/verif_hooks.go (VerifNewConn, VerifCancel, VerifQueueLens, VerifErrChLen, VerifNextErr, VerifSetPacketSize), ocaml/driver.ml, extraction with ExtrOcamlBasic only"]
@@ -70,7 +76,9 @@ LEVEL_TEXT = ("Machine-checked over every queue content and every schedule of th
               "false; C13_reader_ends_partial (error queue has room) vs C13_reader_ends_refuted (full queue: stuck for ever); C13_close_terminates_partial - no goroutine outside holds the read "
               "lock for good and the queue has room for what may still come => in every reachable state somebody can move until Close returned, and every run has at most measure(init) moves; "
               "the full statement is refuted by C13_close_terminates_refuted (reader parked on a full queue) and C13_close_waits_for_consumer_refuted (consumer parked in NextPackage), both known "
-              "findings; C13_close_after_consumer_cancel. PARTIAL: real time, goroutine leaks and data races are observed with watchdogs / goroutine counts, not proved.")
+              "findings; C13_close_after_consumer_cancel; C13_close_during_send_terminates - sender = two consecutive read-lock sections (QueuePackage, SendRemainingPackets) of any "
+              "number of packets, closer = Lock/closed/Unlock: under EVERY schedule the lock discipline holds, nobody is stuck before both returned, at most a+b+17 moves, at the end closed, mutex free, "
+              "Close nil, SendPackage nil or ErrChannelClosed (C13_close_during_send_recursive_refuted: with the read lock held around both sections a schedule ends in a state that no move leaves). PARTIAL: real time, goroutine leaks and data races are observed with watchdogs / goroutine counts, not proved.")
 LEVEL_NOTE = ("Level: proof over all schedules of the modelled steps + every harness observation predicted by the model; three known findings (KNOWN-FINDING lines) reproduced by "
               "dedicated scenarios and exhibited by the model as refuted witnesses. Trusted: Coq kernel, the hand-written model, harness + verif hooks, extraction + OCaml driver. No axioms.")
 
